@@ -595,3 +595,61 @@ Proof.
 Qed.
 End Faults.
 End Pinned.
+
+(* ---------- the fault list of the property text is complete ---------- *)
+(* the single faults, as predicates on the set *)
+Definition F_board (cs : list chunk) : Prop := exists c c', In c cs /\ In c' cs /\ c_dev c <> c_dev c'.
+Definition F_chip (cs : list chunk) : Prop := exists c c', In c cs /\ In c' cs /\ c_chan c <> c_chan c'.
+Definition F_missing (cs : list chunk) : Prop := exists i, i < lenN cs /\ ~ In i (map c_id cs).
+Definition F_dup (cs : list chunk) : Prop := ~ NoDup (map c_id cs).
+Definition F_eom_absent (cs : list chunk) : Prop := exists c, In c cs /\ c_id c = lenN cs - 1 /\ c_eom c = false.
+Definition F_eom_early (cs : list chunk) : Prop := exists c, In c cs /\ c_id c <> lenN cs - 1 /\ c_eom c = true.
+Definition F_size (cs : list chunk) : Prop :=
+  exists c c0, In c cs /\ In c0 cs /\ c_id c0 = 0 /\ c_id c < lenN cs - 1 /\ lenN (c_payload c) <> lenN (c_payload c0).
+
+Lemma NoDup_N_dec (l : list N) : NoDup l \/ ~ NoDup l.
+Proof.
+  induction l as [|a l IH]; [left; constructor|].
+  destruct IH as [IH|IH].
+  - destruct (in_dec N.eq_dec a l) as [I|I].
+    + right. intros H. inversion H. contradiction.
+    + left. constructor; assumption.
+  - right. intros H. inversion H. contradiction.
+Qed.
+
+Theorem wf_set_iff_no_fault cs :
+  wf_set cs <-> cs <> [] /\ ~ F_board cs /\ ~ F_chip cs /\ ~ F_missing cs /\ ~ F_dup cs /\
+                ~ F_eom_absent cs /\ ~ F_eom_early cs /\ ~ F_size cs.
+Proof.
+  split.
+  - intros (Hn & Ub & Uc & Pid & He & Hs). split; [exact Hn|].
+    split; [intros (c & c' & Hc & Hc' & X); apply X, Ub; assumption|].
+    split; [intros (c & c' & Hc & Hc' & X); apply X, Uc; assumption|].
+    split.
+    { intros (i & Hi & X). apply X. apply (Permutation_in i (Permutation_sym Pid)).
+      apply nseq_from_In. unfold lenN in Hi. lia. }
+    split; [intros X; apply X; apply (Permutation_NoDup (Permutation_sym Pid)), nseq_from_NoDup|].
+    split.
+    { intros (c & Hc & Hid & E). apply (He c Hc) in Hid. rewrite Hid in E. discriminate. }
+    split; [intros (c & Hc & Hid & E); apply Hid, (He c Hc), E|].
+    intros (c & c0 & Hc & Hc0 & Z & Hlt & X). apply X, Hs; assumption.
+  - intros (Hn & Fb & Fc & Fm & Fd & Fa & Fe & Fs).
+    split; [exact Hn|]. split; [|split; [|split; [|split]]].
+    + intros c c' Hc Hc'. destruct (N.eq_dec (c_dev c) (c_dev c')) as [E|E]; [exact E|].
+      exfalso. apply Fb. exists c, c'. auto.
+    + intros c c' Hc Hc'. destruct (N.eq_dec (c_chan c) (c_chan c')) as [E|E]; [exact E|].
+      exfalso. apply Fc. exists c, c'. auto.
+    + apply Permutation_sym. apply NoDup_Permutation_bis.
+      * apply nseq_from_NoDup.
+      * unfold nseq. rewrite nseq_from_length, map_length. lia.
+      * intros i Hi. apply nseq_from_In in Hi.
+        destruct (in_dec N.eq_dec i (map c_id cs)) as [I|I]; [exact I|].
+        exfalso. apply Fm. exists i. split; [unfold lenN; lia|exact I].
+    + intros c Hc. split.
+      * intros E. destruct (N.eq_dec (c_id c) (lenN cs - 1)) as [I|I]; [exact I|].
+        exfalso. apply Fe. exists c. auto.
+      * intros I. destruct (c_eom c) eqn:E; [reflexivity|]. exfalso. apply Fa. exists c. auto.
+    + intros c c0 Hc Hc0 Z Hlt.
+      destruct (N.eq_dec (lenN (c_payload c)) (lenN (c_payload c0))) as [E|E]; [exact E|].
+      exfalso. apply Fs. exists c, c0. auto 6.
+Qed.
